@@ -218,7 +218,8 @@ def variant(cls, params, key, first_positional=None):
         if route == "sub_fixed":
             # a user's subclass that fixes the configuration and declares no parameters of its own
             # (class ManhattanTOPSIS(TOPSIS): _skcriteria_parameters = []; __init__ calls super().__init__(metric=...))
-            _a, _p = args, dict(params)
+            import copy as _copy
+            _a, _p = _copy.deepcopy(args), _copy.deepcopy(dict(params))     # (the subclass has its own constants)
 
             class Fixed(cls):
                 _skcriteria_parameters = []
